@@ -66,6 +66,15 @@ def run(tier, seed):
     for s in slow_src:
         scen.append({**s, "cut": 0, "via_read_half": True, "slow": True})
         scen.append({**s, "cut": 0, "via_read_half": False, "slow": True})
+    # soak: a long history of malformed frames (every proper prefix of every frame of the scenario, many times over) before the
+    # scenario itself: "a malformed frame yields an error for that frame only" also after thousands of them
+    def valid_frames(s):
+        return sum(1 for r_ in s["results"] if r_["k"] != "err")
+    for src, n in ((hdr + cache, 2), (pt, 1)):
+        for s in sorted([x for x in src if not any(k[0].startswith("frag") or k[0] == "junk_fraghdr" for k in x["hist"])], key=valid_frames, reverse=True)[:n]:
+            scen.append({**s, "cut": 0, "via_read_half": False, "soak": 120 if thorough else 25})
+    for s in sorted(pt, key=valid_frames, reverse=True)[:1]:
+        scen.append({**s, "cut": 0, "via_read_half": True, "soak": 25})
     for i, s in enumerate(scen):
         s["id"] = i
     sp = os.path.join(lib.outdir(PID), "scenarios.ndjson")
@@ -77,8 +86,8 @@ def run(tier, seed):
         raise lib.ToolError("receive harness did not complete")
     for o in obs:
         s = scen[o["id"]]
-        v.case(json.dumps([s["hist"], s["header_mode"], s["cut"], s["via_read_half"], s.get("slow", False)]))
-        case = {"frames": s["hist"], "header_mode": s["header_mode"], "segmentation": s["cut"], "api": "receive_message_from_read_half" if s["via_read_half"] else "receive_message", "slow_delivery": s.get("slow", False)}
+        v.case(json.dumps([s["hist"], s["header_mode"], s["cut"], s["via_read_half"], s.get("slow", False), s.get("soak", 0)]))
+        case = {"frames": s["hist"], "header_mode": s["header_mode"], "segmentation": s["cut"], "api": "receive_message_from_read_half" if s["via_read_half"] else "receive_message", "slow_delivery": s.get("slow", False), "malformed_frames_sent_before": ("every proper prefix of these frames, %d times over" % s["soak"]) if s.get("soak") else 0}
         if "tool_error" in o:
             raise lib.ToolError("receive harness could not connect")
         if o["panicked"]:
@@ -86,6 +95,11 @@ def run(tier, seed):
             continue
         got = [r for r in o["results"] if r["k"] in ("msg", "err")]
         exp = s["results"]
+        if s.get("soak"):
+            # the stream was read to its end: the scenario's own frames are the last ones (the harness took the deep message off)
+            got = got[-len(exp):] if exp else []
+            if o["deep_delivered"] is not True:
+                v.violation("after a long run of malformed frames a well-formed message whose payload nests 250 deep (within what the decoder accepts on a fresh connection) was not delivered", case)
         if s["via_read_half"]:
             # this loop stops at the first error it cannot attribute to a frame? no: every frame is read whole, errors are per frame
             pass
